@@ -768,8 +768,14 @@ class PayloadSK(Payload):
     def decrypt(self, crypto):
         iv = self.ciphertext[:crypto.cipher.block_size]
         ciphertext = self.ciphertext[crypto.cipher.block_size:-crypto.integrity.hash_size]
+        # an authentic peer can still send a body that is not IV + whole blocks + checksum
+        if (len(iv) != crypto.cipher.block_size or len(ciphertext) == 0
+                or len(ciphertext) % crypto.cipher.block_size != 0):
+            raise InvalidSyntax('Encrypted payload has an invalid size')
         decrypted = crypto.cipher.decrypt(crypto.sk_e, bytes(iv), bytes(ciphertext))
         padlen = decrypted[-1]
+        if padlen + 1 > len(decrypted):
+            raise InvalidSyntax('Encrypted payload has an invalid pad length')
         return iv, decrypted[:-1 - padlen]
 
     @classmethod
